@@ -100,13 +100,35 @@ def program(ctx, e, extra_funcs=(), pre=""):
 # systematic part: every operator x operand-value combinations x every context
 # ------------------------------------------------------------------------------------------------
 VALS = [0, 1, 2, -1]
+PRINT_CTX = ("print", "print2")
+
+# shapes of the recorded deviations (known_findings/C03.json); None = the implementation is expected to agree with Ref
+SC = "C03-short-circuit"
+MI = "C03-multi-index-order"
+ET = "C03-elem-assign-call-twice"
+PR = "C03-println-retry"
+IT = "C03-index-twice-out-of-bounds"
+TN = "C01-elem-assign-ternary"
 
 
-def systematic(avoid=True):
-    """Yields (sexpr, feats). With avoid=True the operand that the reference semantics skips is effect-free
-    (a literal), so an implementation without short-circuit still produces the same transcript; the
-    deciding/non-deciding split for traced right operands is in `reproducers`."""
+def _shape(ctx, e, can_fail, shape=None):
+    """the recorded deviation a case falls under (first match), given the context it is placed in"""
+    if shape:
+        return shape
+    if ctx in PRINT_CTX and can_fail:
+        return PR                      # println re-evaluates an argument whose evaluation failed
+    if ctx == "elem-store" and e.startswith("(call"):
+        return ET                      # a[i] = f(..) evaluates the call twice
+    if ctx == "elem-store" and e.startswith("(cond"):
+        return TN                      # a[i] = (c ? x : y) stores 0
+    return None
+
+
+def systematic():
+    """Yields (sexpr, feats, shape): all operators x operand values x contexts with traced / failing operands."""
     for ctx in CONTEXTS:
+        def case(e, feats, can_fail=False, shape=None, pre=""):
+            return program(ctx, e, pre=pre), feats, _shape(ctx, e, can_fail, shape)
         # binary operators: both operands traced, all value combinations
         for op in BINOPS:
             for a in VALS:
@@ -114,60 +136,72 @@ def systematic(avoid=True):
                     if op in ("<<", ">>") and b < 0:
                         continue
                     e = "(bin %s %s %s)" % (op, tr(101, a), tr(102, b))
-                    yield program(ctx, e), ("bin" + op, ctx, "traced")
-            # left operand fails: the right one must not be evaluated
-            yield program(ctx, "(bin %s %s %s)" % (op, bad(101), tr(102, 1))), ("bin" + op, ctx, "left-fails")
-            yield program(ctx, "(bin %s %s %s)" % (op, tr(101, 1), bad(102))), ("bin" + op, ctx, "right-fails")
+                    yield case(e, ("bin" + op, ctx, "traced"), can_fail=(op in "/%" and b == 0))
+            # a failing operand ends the evaluation: nothing to its right is evaluated
+            yield case("(bin %s %s %s)" % (op, bad(101), tr(102, 1)), ("bin" + op, ctx, "left-fails"), True)
+            yield case("(bin %s %s %s)" % (op, tr(101, 1), bad(102)), ("bin" + op, ctx, "right-fails"), True)
         for op in ("-", "!", "~"):
             for a in VALS:
-                yield program(ctx, "(un %s %s)" % (op, tr(101, a))), ("un" + op, ctx, "traced")
-        # logical operators
+                yield case("(un %s %s)" % (op, tr(101, a)), ("un" + op, ctx, "traced"))
+            yield case("(un %s %s)" % (op, bad(101)), ("un" + op, ctx, "operand-fails"), True)
+        # logical operators, all truth combinations
         for op, decides in (("and", lambda a: a == 0), ("or", lambda a: a != 0)):
             for a in VALS:
                 for b in VALS:
-                    if decides(a) and avoid:
-                        e = "(%s %s %d)" % (op, tr(101, a), b)                   # skipped operand is a literal
-                        yield program(ctx, e), (op, ctx, "lhs-decides-quiet-rhs")
-                    elif decides(a):
-                        e = "(%s %s %s)" % (op, tr(101, a), tr(102, b))
-                        yield program(ctx, e), (op, ctx, "lhs-decides-traced-rhs")
+                    if decides(a):
+                        # the skipped operand is a literal: same transcript with or without short-circuit
+                        yield case("(%s %s %d)" % (op, tr(101, a), b), (op, ctx, "lhs-decides-quiet-rhs"))
+                        yield case("(%s %s %s)" % (op, tr(101, a), tr(102, b)), (op, ctx, "lhs-decides-traced-rhs"), shape=SC)
                     else:
-                        e = "(%s %s %s)" % (op, tr(101, a), tr(102, b))
-                        yield program(ctx, e), (op, ctx, "lhs-open-traced-rhs")
-            if not avoid:
-                a0 = 0 if op == "and" else 1
-                yield program(ctx, "(%s %s %s)" % (op, tr(101, a0), bad(102))), (op, ctx, "lhs-decides-failing-rhs")
-            a1 = 1 if op == "and" else 0
-            yield program(ctx, "(%s %s %s)" % (op, tr(101, a1), bad(102))), (op, ctx, "lhs-open-failing-rhs")
-            yield program(ctx, "(%s %s %s)" % (op, bad(101), tr(102, 1))), (op, ctx, "lhs-fails")
+                        yield case("(%s %s %s)" % (op, tr(101, a), tr(102, b)), (op, ctx, "lhs-open-traced-rhs"))
+            a0 = 0 if op == "and" else 1
+            yield case("(%s %s %s)" % (op, tr(101, a0), bad(102)), (op, ctx, "lhs-decides-failing-rhs"), True, shape=SC)
+            yield case("(%s %s %s)" % (op, tr(101, 1 - a0), bad(102)), (op, ctx, "lhs-open-failing-rhs"), True)
+            yield case("(%s %s %s)" % (op, bad(101), tr(102, 1)), (op, ctx, "lhs-fails"), True)
         # conditional: only the selected branch, whatever the other one would do
         for c in VALS:
-            yield program(ctx, "(cond %s %s %s)" % (tr(101, c), tr(102, 5), tr(103, 6))), ("cond", ctx, "traced")
-            yield program(ctx, "(cond %s %s %s)" % (tr(101, c), tr(102, 5) if c else bad(102), bad(103) if c else tr(103, 6))), ("cond", ctx, "other-branch-fails")
-            yield program(ctx, "(cond %s %s %s)" % (tr(101, c), bad(102) if c else tr(102, 5), tr(103, 6) if c else bad(103))), ("cond", ctx, "selected-branch-fails")
-        yield program(ctx, "(cond %s %s %s)" % (bad(101), tr(102, 5), tr(103, 6))), ("cond", ctx, "condition-fails")
+            yield case("(cond %s %s %s)" % (tr(101, c), tr(102, 5), tr(103, 6)), ("cond", ctx, "traced"))
+            yield case("(cond %s %s %s)" % (tr(101, c), tr(102, 5) if c else bad(102), bad(103) if c else tr(103, 6)),
+                       ("cond", ctx, "other-branch-fails"))
+            yield case("(cond %s %s %s)" % (tr(101, c), bad(102) if c else tr(102, 5), tr(103, 6) if c else bad(103)),
+                       ("cond", ctx, "selected-branch-fails"), True)
+        yield case("(cond %s %s %s)" % (bad(101), tr(102, 5), tr(103, 6)), ("cond", ctx, "condition-fails"), True)
         # call arguments
         for perm in ((1, 2, 3), (3, 2, 1), (0, 0, 0)):
             e = "(call %d %s %s %s)" % (F_ARGS3, tr(101, perm[0]), tr(102, perm[1]), tr(103, perm[2]))
-            yield program(ctx, e), ("args", ctx, "traced")
+            yield case(e, ("args", ctx, "traced"))
         for pos in range(3):
             ops = [tr(101 + j, j + 1) if j != pos else bad(101 + j) for j in range(3)]
-            yield program(ctx, "(call %d %s)" % (F_ARGS3, " ".join(ops))), ("args", ctx, "arg%d-fails" % pos)
+            yield case("(call %d %s)" % (F_ARGS3, " ".join(ops)), ("args", ctx, "arg%d-fails" % pos), True)
         # one-dimensional index
         for i in (0, 1, 3):
-            yield program(ctx, "(bin + (idx %d %s) 0)" % (V_ARR, tr(101, i))), ("index1", ctx, "traced")
-        yield program(ctx, "(bin + (idx %d %s) 0)" % (V_ARR, bad(101))), ("index1", ctx, "index-fails")
+            yield case("(bin + (idx %d %s) 0)" % (V_ARR, tr(101, i)), ("index1", ctx, "traced"))
+        yield case("(bin + (idx %d %s) 0)" % (V_ARR, bad(101)), ("index1", ctx, "index-fails"), True)
+        for i in (4, 9, -1):
+            yield case("(bin + (idx %d %s) 0)" % (V_ARR, tr(101, i)), ("index1", ctx, "out-of-bounds"), True, shape=IT)
+        # multi-dimensional accesses with traced indices
+        yield case("(bin + (idx %d %s %s) 0)" % (V_MAT, tr(101, 1), tr(102, 2)), ("index2", ctx, "traced"), shape=MI)
+        yield case("(bin + (idx %d %s %s %s) 0)" % (V_CUBE, tr(101, 1), tr(102, 0), tr(103, 1)), ("index3", ctx, "traced"), shape=MI)
+        yield case("(bin + (idx %d %s 2) 0)" % (V_MAT, tr(101, 1)), ("index2", ctx, "one-traced"), shape=MI)
+        yield case("(bin + (idx %d 1 2) 0)" % V_MAT, ("index2", ctx, "literal-indices"))
         # the guards of the property text
-        for d in (0, 1, 3, -2):
-            pre = "(decl 0 0 long %d %d) (decl 0 0 long %d 10)" % (V_D, d, V_N)
-            if ctx != "ret":
+        if ctx != "ret":
+            for d in (0, 1, 3, -2):
+                pre = "(decl 0 0 long %d %d) (decl 0 0 long %d 10)" % (V_D, d, V_N)
                 g = "(and (bin != (v %d) 0) (bin > (bin / (v %d) (v %d)) 1))" % (V_D, V_N, V_D)
-                yield program(ctx, g, pre=pre), ("guard-div", ctx, "d=%d" % d)
-        for i in (0, 2, 3, 4, 7, -1):
-            pre = "(decl 0 0 long %d %d) (decl 0 0 long %d 4)" % (V_I, i, V_N)
-            if ctx != "ret":
+                yield case(g, ("guard-div", ctx, "d=%d" % d), d == 0, shape=SC if d == 0 else None, pre=pre)
+            for i in (0, 2, 3, 4, 7, -1):
+                pre = "(decl 0 0 long %d %d) (decl 0 0 long %d 4)" % (V_I, i, V_N)
                 g = "(and (and (bin >= (v %d) 0) (bin < (v %d) (v %d))) (bin > (bin + (idx %d (v %d)) 0) 11))" % (V_I, V_I, V_N, V_ARR, V_I)
-                yield program(ctx, g, pre=pre), ("guard-index", ctx, "i=%d" % i)
+                yield case(g, ("guard-index", ctx, "i=%d" % i), not 0 <= i < 4, shape=None if 0 <= i < 4 else SC, pre=pre)
+    # stores through traced indices
+    G, Fs = " ".join(GLOBALS), " ".join(PRELUDE)
+    yield ("(P (%s) (%s) ((asg (idx %d %s) (bin + %s 0)) (print 1 (idx %d 2))))" % (G, Fs, V_ARR, tr(101, 2), tr(102, 5), V_ARR)), ("store1", "stmt", "value-then-index"), None
+    yield ("(P (%s) (%s) ((asg (idx %d %s) %s) (print 1 (idx %d 2))))" % (G, Fs, V_ARR, tr(101, 2), tr(102, 5), V_ARR)), ("store1", "stmt", "bare-call"), ET
+    yield ("(P (%s) (%s) ((asg (idx %d 0) %s) (print 1 (idx %d 0))))" % (G, Fs, V_ARR, tr(101, 5), V_ARR)), ("store1", "stmt", "bare-call"), ET
+    yield ("(P (%s) (%s) ((asg (idx %d %s %s) %s) (print 1 (idx %d 1 0))))" % (G, Fs, V_MAT, tr(101, 1), tr(102, 0), tr(107, 7), V_MAT)), ("store2", "stmt", "bare-call"), MI
+    yield ("(P (%s) (%s) ((asg (idx %d %s %s) (bin + %s 0)) (print 1 (idx %d 1 0))))" % (G, Fs, V_MAT, tr(101, 1), tr(102, 0), tr(107, 7), V_MAT)), ("store2", "stmt", "expr"), MI
+    yield ("(P (%s) (%s) ((asg (idx %d %s %s %s) 5) (print 1 (idx %d 1 0 1))))" % (G, Fs, V_CUBE, tr(101, 1), tr(102, 0), tr(103, 1), V_CUBE)), ("store3", "stmt", "literal"), MI
 
 
 # ------------------------------------------------------------------------------------------------
@@ -264,38 +298,3 @@ def random_program(rng, avoid=True, multi_index=False):
     return program(ctx, e), ("random", ctx) + tuple(sorted(g.feats))
 
 
-# ------------------------------------------------------------------------------------------------
-# reproducers of the recorded deviations (avoidance off)
-# ------------------------------------------------------------------------------------------------
-def reproducers():
-    """Yields (sexpr, feats) for the shapes of the recorded findings, in every context."""
-    for ctx in CONTEXTS:
-        for op, a0 in (("and", 0), ("or", 1), ("or", 2), ("or", -1)):
-            for b in (0, 1):
-                yield program(ctx, "(%s %s %s)" % (op, tr(101, a0), tr(102, b))), ("short-circuit", op, ctx, "traced-rhs")
-            yield program(ctx, "(%s %s %s)" % (op, tr(101, a0), bad(102))), ("short-circuit", op, ctx, "failing-rhs")
-        if ctx != "ret":
-            pre = "(decl 0 0 long %d 0) (decl 0 0 long %d 10)" % (V_D, V_N)
-            g = "(and (bin != (v %d) 0) (bin > (bin / (v %d) (v %d)) 1))" % (V_D, V_N, V_D)
-            yield program(ctx, g, pre=pre), ("short-circuit", "and", ctx, "guard-div")
-            for i in (4, 7, -1):
-                pre = "(decl 0 0 long %d %d) (decl 0 0 long %d 4)" % (V_I, i, V_N)
-                g = "(and (and (bin >= (v %d) 0) (bin < (v %d) (v %d))) (bin > (bin + (idx %d (v %d)) 0) 11))" % (V_I, V_I, V_N, V_ARR, V_I)
-                yield program(ctx, g, pre=pre), ("short-circuit", "and", ctx, "guard-index")
-        # multi-dimensional accesses with traced indices
-        yield program(ctx, "(bin + (idx %d %s %s) 0)" % (V_MAT, tr(101, 1), tr(102, 2))), ("multi-index", "read2", ctx)
-        yield program(ctx, "(bin + (idx %d %s %s %s) 0)" % (V_CUBE, tr(101, 1), tr(102, 0), tr(103, 1))), ("multi-index", "read3", ctx)
-        yield program(ctx, "(bin + (idx %d %s 2) 0)" % (V_MAT, tr(101, 1))), ("multi-index", "read2-one-traced", ctx)
-        yield program(ctx, "(bin + (idx %d %s) 0)" % (V_ARR, tr(101, 9))), ("index-twice", "out-of-bounds", ctx)
-    # stores
-    yield ("(P (%s) (%s) ((asg (idx %d %s %s) %s) (print 1 (idx %d 1 0))))" % (
-        " ".join(GLOBALS), " ".join(PRELUDE), V_MAT, tr(101, 1), tr(102, 0), tr(107, 7), V_MAT)), ("multi-index", "store2", "stmt")
-    yield ("(P (%s) (%s) ((asg (idx %d %s %s) (bin + %s 0)) (print 1 (idx %d 1 0))))" % (
-        " ".join(GLOBALS), " ".join(PRELUDE), V_MAT, tr(101, 1), tr(102, 0), tr(107, 7), V_MAT)), ("multi-index", "store2-expr", "stmt")
-    yield ("(P (%s) (%s) ((asg (idx %d 0) %s) (print 1 (idx %d 0))))" % (
-        " ".join(GLOBALS), " ".join(PRELUDE), V_ARR, tr(101, 5), V_ARR)), ("elem-call-twice", "store1", "stmt")
-    yield ("(P (%s) (%s) ((asg (idx %d %s) %s) (print 1 (idx %d 2))))" % (
-        " ".join(GLOBALS), " ".join(PRELUDE), V_ARR, tr(101, 2), tr(102, 5), V_ARR)), ("elem-call-twice", "store1-traced-index", "stmt")
-    # println re-evaluates a failing argument
-    yield program("print", "(bin + %s %s)" % (tr(101, 1), bad(102))), ("println-retry", "print")
-    yield program("print2", "(bin + %s %s)" % (tr(101, 1), bad(102))), ("println-retry", "print2")
